@@ -447,6 +447,10 @@ def readArgValues (p : P) : Option Err × P :=
   | (some b, p) =>
     if b == 40 then argLoop cm p.vfuel (reRead p) else (none, p)
 
+/-- `if b == '=' { _, _ = p.readByte(); …Default, err = p.readValue() }` -/
+def optDefault (b : UInt8) (p : P) : Option Err × P :=
+  if b == 61 then readValue cm p.vfuel (reRead p) else (none, p)
+
 /-- remaining input, counting the byte on deck: the measure every loop consumes -/
 def P.mu (p : P) : Nat := p.rest.length + (if p.onDeck != 0 then 1 else 0)
 
